@@ -394,6 +394,11 @@ builtin_get(spif_charptr_t param)
 
     D_PARSE(("builtin_get(%s) called\n", param));
     s = spiftool_get_word(1, param);
+    if (!s) {
+        libast_print_error("Parse error in file %s, line %lu:  Invalid syntax for %%get().  Syntax is:  %%get(variable)\n", file_peek_path(),
+                    file_peek_line());
+        return NULL;
+    }
     if (n == 2) {
         f = spiftool_get_word(2, param);
     } else {
